@@ -281,50 +281,72 @@ func runC03(c *kit.Ctx) {
 		}
 	}
 
-	// ---------- B: stream close × attach
+	// ---------- B: stream end (close | unregister | replacement by a new publisher) × attach
 	for rep := 0; rep < reps; rep++ {
 		for _, pt := range ptypes {
 			for ord := 0; ord < 5; ord++ {
-				if !mine() {
-					continue
-				}
-				point := []string{"media.join.begin", "media.join.snapshotted", "media.join.registered", "", ""}[ord]
-				scen := fmt.Sprintf("B%d-close-x-attach/%s/%s", ord, point, pt)
-				c.Pre(scen)
-				s := c03NewStream()
-				r := &kit.RecConsumer{Name: scen}
-				detail := map[string]interface{}{"rep": rep}
-				switch {
-				case ord <= 2: // attach held at point, close runs completely, attach resumes
-					g := kit.H.Gate(point, func(a []interface{}) bool { return len(a) > 1 && a[1] == r })
-					done := make(chan struct{})
-					go func() { s.StartConsume(r, pt, "x"); close(done) }()
-					if !g.WaitArrived(c03Watch) {
-						c.Inconclusive("gate not reached: " + scen)
-						g.Release()
-						<-done
-						s.Close()
+				for _, endKind := range []string{"Close", "Unregist", "Replaced"} {
+					if endKind == "Replaced" && ord == 2 {
+						// the consumer is already registered when the new publisher arrives: the old stream is then
+						// retired, not ended (it closes once its consumers are gone) - nothing to release yet
 						continue
 					}
+					if !mine() {
+						continue
+					}
+					point := []string{"media.join.begin", "media.join.snapshotted", "media.join.registered", "", ""}[ord]
+					scen := fmt.Sprintf("B%d-end-x-attach/%s/%s/%s", ord, point, pt, endKind)
+					c.Pre(scen)
+					s := c03NewStream()
+					media.Regist(s)
+					endStream := func() {
+						switch endKind {
+						case "Close":
+							s.Close()
+						case "Unregist":
+							media.Unregist(s)
+						case "Replaced":
+							// a new publisher registers the same path: the old stream has no consumer and is closed at once
+							ns := media.NewStream(s.Path(), kit.SDPH264AAC)
+							media.Regist(ns)
+							defer media.Unregist(ns)
+						}
+					}
+					r := &kit.RecConsumer{Name: scen}
+					detail := map[string]interface{}{"rep": rep}
+					switch {
+					case ord <= 2: // attach held at point, close runs completely, attach resumes
+						g := kit.H.Gate(point, func(a []interface{}) bool { return len(a) > 1 && a[1] == r })
+						done := make(chan struct{})
+						go func() { s.StartConsume(r, pt, "x"); close(done) }()
+						if !g.WaitArrived(c03Watch) {
+							c.Inconclusive("gate not reached: " + scen)
+							g.Release()
+							<-done
+							s.Close()
+							continue
+						}
+						endStream()
+						g.Release()
+						<-done
+					case ord == 3: // close held after marking, attach runs completely, close resumes with the sweep
+						g := kit.H.Gate("media.close.marked", kit.Arg0Is(s))
+						done := make(chan struct{})
+						go func() { endStream(); close(done) }()
+						g.WaitArrived(c03Watch)
+						s.StartConsume(r, pt, "x")
+						g.Release()
+						<-done
+					case ord == 4: // attach to a stream that was looked up before it closed
+						endStream()
+						s.StartConsume(r, pt, "x")
+					}
+					c.Eval(1)
+					c.Distinct(scen)
+					c.SetAdd("interleavings_seen", scen)
+					c03Settle(c, l, s, r, scen, detail)
 					s.Close()
-					g.Release()
-					<-done
-				case ord == 3: // close held after marking, attach runs completely, close resumes with the sweep
-					g := kit.H.Gate("media.close.marked", kit.Arg0Is(s))
-					done := make(chan struct{})
-					go func() { s.Close(); close(done) }()
-					g.WaitArrived(c03Watch)
-					s.StartConsume(r, pt, "x")
-					g.Release()
-					<-done
-				case ord == 4: // attach to a stream that was looked up before it closed
-					s.Close()
-					s.StartConsume(r, pt, "x")
 				}
-				c.Eval(1)
-				c.Distinct(scen)
-				c.SetAdd("interleavings_seen", scen)
-				c03Settle(c, l, s, r, scen, detail)
 			}
 		}
 	}
